@@ -946,6 +946,145 @@ pub(crate) mod verif_seam {
             }
         }
     }
+
+    // ---- the real starter step (`PendingFetches::start_due_fetches`) and the real completion step
+    // (`<PendingFetches as Future>::poll`), on a placeholder control connection whose fetch futures are
+    // never polled: every fetch the starter puts in flight is at once replaced by a parked stand-in of the
+    // same type, and a "completion" swaps in a ready `Err` and polls the real `PendingFetches` once.
+    use super::{FetchOutcome, PendingFetches};
+    use crate::cluster::control_connection::{
+        ControlConnection, ControlConnectionCache, ControlConnectionConfig, MetadataRequestTimeouts,
+    };
+    use crate::cluster::metadata::SchemaMetadataFetchMode;
+    use crate::cluster::node::ResolvedContactPoint;
+    use crate::cluster::metadata::UntranslatedEndpoint;
+    use crate::errors::{MetadataError, PeersMetadataError};
+    use crate::network::Connection;
+    use std::future::Future;
+    use std::sync::{Arc, OnceLock};
+    use std::time::Duration;
+    use tokio::time::Instant;
+
+    fn placeholder_cc() -> &'static ControlConnection {
+        static CC: OnceLock<&'static ControlConnection> = OnceLock::new();
+        CC.get_or_init(|| {
+            let addr: std::net::SocketAddr = "127.0.0.1:9042".parse().unwrap();
+            let (_err_tx, err_rx) = tokio::sync::oneshot::channel();
+            let (_ev_tx, ev_rx) = tokio::sync::mpsc::channel(1);
+            let (cc, _events) = ControlConnection::new(
+                Arc::new(Connection::verif_exec_placeholder(addr)),
+                UntranslatedEndpoint::ContactPoint(ResolvedContactPoint { address: addr }),
+                ControlConnectionConfig {
+                    keyspaces_to_fetch: Vec::new(),
+                    schema_metadata_fetch_mode: SchemaMetadataFetchMode::Disabled,
+                    client_routes_subscriber: None,
+                    request_timeouts: MetadataRequestTimeouts {
+                        serverside_override: None,
+                        clientside_override: None,
+                    },
+                },
+                Arc::new(ControlConnectionCache::new()),
+                err_rx,
+                ev_rx,
+            );
+            Box::leak(Box::new(cc))
+        })
+    }
+
+    /// Which fetches are in flight: (full, client routes, topology).
+    pub(crate) type InFlight = (bool, bool, bool);
+
+    /// The state `work_on_cc` keeps across loop iterations: the plan and the fetches in flight.
+    pub(crate) struct Starter {
+        plan: Plan,
+        pending: PendingFetches<'static>,
+        next_refresh_deadline: Instant,
+    }
+
+    const FAR: Duration = Duration::from_secs(365 * 24 * 3600);
+
+    impl Starter {
+        pub(crate) fn new() -> Self {
+            Starter {
+                plan: Plan::new(),
+                pending: PendingFetches::empty(),
+                // the periodic refresh never becomes due during a run
+                next_refresh_deadline: Instant::now() + FAR,
+            }
+        }
+        pub(crate) fn plan(&mut self) -> &mut Plan {
+            &mut self.plan
+        }
+        pub(crate) fn in_flight(&self) -> InFlight {
+            match &self.pending {
+                PendingFetches::Full { .. } => (true, false, false),
+                PendingFetches::Partial {
+                    client_routes_fetch,
+                    topology_fetch,
+                } => (false, client_routes_fetch.is_some(), topology_fetch.is_some()),
+            }
+        }
+        /// The production starter step.
+        pub(crate) fn start_due(&mut self) {
+            let before = self.in_flight();
+            self.pending.start_due_fetches(
+                &mut self.plan.0,
+                &mut self.next_refresh_deadline,
+                FAR,
+                placeholder_cc(),
+            );
+            self.next_refresh_deadline = Instant::now() + FAR;
+            // park every fetch that was just started (the real query futures are dropped unpolled)
+            match &mut self.pending {
+                PendingFetches::Full { fetch } => {
+                    if !before.0 {
+                        *fetch = Box::pin(std::future::pending());
+                    }
+                }
+                PendingFetches::Partial {
+                    client_routes_fetch,
+                    topology_fetch,
+                } => {
+                    if let Some(f) = client_routes_fetch.as_mut().filter(|_| before.0 || !before.1) {
+                        *f = Box::pin(std::future::pending());
+                    }
+                    if let Some(f) = topology_fetch.as_mut().filter(|_| before.0 || !before.2) {
+                        *f = Box::pin(std::future::pending());
+                    }
+                }
+            }
+        }
+        /// Completes the in-flight fetch `which` (0 full, 1 client routes, 2 topology) through the production
+        /// `poll`; returns false if the production code did not report exactly that fetch's outcome.
+        pub(crate) fn complete(&mut self, which: u8) -> bool {
+            let err = || MetadataError::Peers(PeersMetadataError::EmptyPeers);
+            match (&mut self.pending, which) {
+                (PendingFetches::Full { fetch }, 0) => *fetch = Box::pin(std::future::ready(Err(err()))),
+                (
+                    PendingFetches::Partial {
+                        client_routes_fetch: Some(f),
+                        ..
+                    },
+                    1,
+                ) => *f = Box::pin(std::future::ready(Err(err()))),
+                (
+                    PendingFetches::Partial {
+                        topology_fetch: Some(f),
+                        ..
+                    },
+                    2,
+                ) => *f = Box::pin(std::future::ready(Err(err()))),
+                _ => return false,
+            }
+            let mut cx = std::task::Context::from_waker(std::task::Waker::noop());
+            match std::pin::Pin::new(&mut self.pending).poll(&mut cx) {
+                std::task::Poll::Ready(FetchOutcome::Full(_)) => which == 0,
+                std::task::Poll::Ready(FetchOutcome::ClientRoutes(_)) => which == 1,
+                std::task::Poll::Ready(FetchOutcome::Topology(_)) => which == 2,
+                std::task::Poll::Pending => false,
+            }
+        }
+    }
 }
 
 #[cfg(test)]
